@@ -267,15 +267,19 @@ func headerValue(name string, line int, c *Case) string {
 
 		return fwd2Host
 	case "uri":
+		// the value is sent in origin form, as network-path reference or in absolute form: in every
+		// form the header stands for path and query only
+		prefix := []string{"", "", "//uri-host.example", "https://uri-host.example", "ftp://uri-host.example:8443"}[(c.V/4)%5]
+
 		if line == 1 {
 			if c.Uriq {
-				return "/fwd/f?fq=1"
+				return prefix + "/fwd/f?fq=1"
 			}
 
-			return "/fwd/f"
+			return prefix + "/fwd/f"
 		}
 
-		return "/fwd2/g?fq=2"
+		return prefix + "/fwd2/g?fq=2"
 	case "path":
 		if line == 1 {
 			return "/xfp/x"
